@@ -15,6 +15,12 @@ def run(ck):
     for i in range(2):
         jobs.append(dict(exe=asan, args=["--mode", "long", "--histories", int(10 * k), "--ops", 400, "--threads", 8, "--yield", 40, "--seed", sa.subseed(ck, 40 + i)], label="asan-long-%d" % i, timeout=7200))
         jobs.append(dict(exe=asan, args=["--mode", "short", "--histories", int(2000 * k), "--yield", 80, "--seed", sa.subseed(ck, 50 + i)], label="asan-short-%d" % i, timeout=7200))
+    # "every operation completes" under the cache's typical load: operations that need the exclusive lock while 8 threads keep fetching
+    # one hot key, each awaited for 10 s (bounded progress; microseconds of work). The process-shared backend has the same lock design
+    # and is driven too.
+    plain = ck.build("plain", ["cache_conc"])["cache_conc"]
+    for i, (exe, extra) in enumerate([(asan, []), (plain, []), (tsan, []), (asan, ["--shared"])]):
+        jobs.append(dict(exe=exe, args=["--mode", "flood", "--readers", 8, "--writes", int(40 * min(k, 5)), "--bound", 10, "--yield", 0, "--seed", sa.subseed(ck, 60 + i)] + extra, label="flood-%d" % i, timeout=7200))
     sa.run_jobs(ck, jobs, sets=("shapes",))
     ck.counters["histories_total"] = ck.counters.get("histories_long", 0) + ck.counters.get("histories_short", 0)
     ck.inconclusive += ck.counters.get("linearizability_inconclusive", 0)
@@ -26,6 +32,6 @@ def run(ck):
     ck.finish("exploration",
               "2..8 threads running random fetch/store/rise/remove/clear/stats over 2..5 keys and 2 triggers on one thread-shared cache (limit 0 or 2..5), seeded yield points between the cache's critical sections, "
               "under ThreadSanitizer and again under ASan; long histories judged by sound stale/torn/foreign-read conditions, short histories (2..3 threads x 2..6 ops) by a full linearizability search against the "
-              "sequential model; a watchdog on per-thread progress decides 'every operation completes'. non-trivial = distinct history shapes",
+              "sequential model; a watchdog on per-thread progress decides 'every operation completes', and a reader flood (8 threads fetching one hot key without pause, thread-shared and process-shared backends) must not keep a store/rise/remove from returning within 10 s. non-trivial = distinct history shapes",
               "histories_total", "shapes", min_evals=1000,
-              required_nonzero=("hits", "misses", "overlapping_pairs", "histories_linearized", "yields_taken", "histories_long"))
+              required_nonzero=("hits", "misses", "overlapping_pairs", "histories_linearized", "yields_taken", "histories_long", "flood_scenarios", "flood_writes_completed", "flood_fetches"))
